@@ -107,6 +107,10 @@ pub struct WorldSpec {
     /// TopLevelGrammar.max_tokens: total token budget of a Rust engine (refunded by rollback)
     #[serde(default, skip_serializing_if = "Option::is_none")]
     pub max_tokens: Option<usize>,
+    /// hex of a prompt every Rust engine of this world is started with (TokenParser::process_prompt:
+    /// token healing of the prompt's tail; canonical tokenizers only)
+    #[serde(default, skip_serializing_if = "Option::is_none")]
+    pub prompt: Option<String>,
 }
 
 // ------------------------------------------------------------------ tokenizer stub
@@ -500,7 +504,19 @@ impl World {
     }
 
     pub fn new_parser_with(&self, factory: &ParserFactory) -> Result<TokenParser> {
-        factory.create_parser(self.grammar.clone())
+        let mut tp = factory.create_parser(self.grammar.clone())?;
+        if let Some(p) = &self.spec.prompt {
+            if self.spec.canonical {
+                let toks = self.tok_env.tokenize_bytes(&unhex(p));
+                let r = std::panic::catch_unwind(std::panic::AssertUnwindSafe(|| {
+                    tp.process_prompt(toks);
+                }));
+                if r.is_err() {
+                    anyhow::bail!("panic: process_prompt");
+                }
+            }
+        }
+        Ok(tp)
     }
 
     /// A freshly built engine (nothing shared with any handle under test).
